@@ -54,7 +54,7 @@ hx_log_esc(const char *s, size_t n)
 	for (size_t i = 0; i < n; i++) {
 		unsigned char c = (unsigned char)s[i];
 		if (lbi > sizeof(lbuf) - 64) hx_flush();
-		if (c <= 0x20 || c >= 0x7f || c == '%') {
+		if (c <= 0x20 || c >= 0x7f || c == '%' || c == ',' || c == '|') {
 			lbi += sprintf(lbuf + lbi, "%%%02x", c);
 		} else {
 			lbuf[lbi++] = (char)c;
@@ -317,7 +317,9 @@ openat(int dirfd, const char *path, int flags, ...)
 		mode = (mode_t)va_arg(ap, int);
 		va_end(ap);
 	}
-	int ckp = (flags & O_TRUNC) && (flags & O_WRONLY) && !strncmp(path, ".echsq_", 7);
+	/* the temporary name, or (should the code ever do that) the live file itself */
+	int ckp = (flags & (O_TRUNC | O_WRONLY | O_RDWR | O_APPEND)) &&
+		(!strncmp(path, ".echsq_", 7) || !strncmp(path, "echsq_", 6));
 	if (ckp && fs_gate("openat", path, dirfd)) {
 		errno = hx_fault_errno == ENOSPC ? EMFILE : hx_fault_errno;
 		return -1;
